@@ -227,7 +227,7 @@ EXTENSIONS = {
     "C03": " Also: (D) every iteration cap 6..30 (4..60 thorough) on two-molecule batches under every solver, so that the cap "
     "falls between the members' iteration counts; (E) open-shell batches whose padded member is an anion or radical anion, in "
     "every position.",
-    "C04": " Also (leaves): the SP2 tolerance axis 1e-2..1e-10 (inside and outside the supported float64 window) and cold "
+    "C04": " Also (leaves): the SP2 tolerance axis 1e-5..1e-10 (inside and below the supported float64 window) and cold "
     "solves inside a batch with a molecule of another composition (UHF singlet, adaptive, Pulay/SP2).",
     "C05": " Also: N2 in the alphabet (orbital count of CH4, other composition), all six orders of mixed triples, one active "
     "state per batch row with the analytical excited gradient, and section `uhf`: every ordered pair of the alphabet + {CH3, O2} "
